@@ -20,6 +20,7 @@ import (
 	"sync"
 	"time"
 
+	"verif/harness/vclient"
 	"verif/harness/vk"
 	"verif/harness/vsrv"
 )
@@ -684,6 +685,24 @@ func (h *httpWorld) whipSession(i int) {
 	for k, v := range auth {
 		hdr[k] = v
 	}
+	// an observer in the group learns the id under which the WHIP session is a member
+	var obs *vclient.Client
+	if i%2 == 0 {
+		if c, err := vclient.Dial(h.srv, fmt.Sprintf("whipobs-b%dp%ds%d", h.batch, h.pass, i)); err == nil {
+			if m, ok := c.Join(g, "op1", "pw-op1"); ok && m.Str("kind") == "join" {
+				obs = c
+			} else {
+				c.Close()
+			}
+		}
+	}
+	if obs != nil {
+		defer obs.Close()
+	}
+	obsFrom := 0
+	if obs != nil {
+		obsFrom = obs.EventCount()
+	}
 	st, rh := do("create", "POST", ep, hdr, []byte(h.offer))
 	if st != http.StatusCreated {
 		if i%4 != 3 && st != 0 {
@@ -776,6 +795,30 @@ func (h *httpWorld) whipSession(i int) {
 		}
 		do("patch-after-delete", "PATCH", loc, ph(nil), frag(ufrag, pwd, ""))
 		do("delete-after-delete", "DELETE", loc, ph(nil), nil)
+		// the session is gone; a WEB client now joins the group under the very id the session
+		// had (ids are chosen by clients): the old session URL resolves to a member that is
+		// not a WHIP session
+		if obs != nil {
+			whipID := ""
+			obs.Ping(10 * time.Second)
+			for _, e := range obs.EventsFrom(obsFrom) {
+				if e.M.Str("type") == "user" && e.M.Str("kind") == "add" && e.M.Str("username") == "whip" {
+					whipID = e.M.Str("id")
+				}
+			}
+			if whipID != "" {
+				if c, err := vclient.Dial(h.srv, whipID); err == nil {
+					defer c.Close()
+					if m, ok := c.Join(g, "op1", "pw-op1"); ok && m.Str("kind") == "join" {
+						h.run.Count("whip_ids_reused_by_web_clients", 1)
+						do("delete-id-now-a-web-client", "DELETE", loc, ph(nil), nil)
+						do("patch-id-now-a-web-client", "PATCH", loc, ph(nil), frag(ufrag, pwd, ""))
+						do("get-id-now-a-web-client", "GET", loc, ph(nil), nil)
+						do("options-id-now-a-web-client", "OPTIONS", loc, ph(nil), nil)
+					}
+				}
+			}
+		}
 	}
 }
 
